@@ -20,7 +20,7 @@ import (
 	tokenv1 "mods.irisnet.org/modules/token/types/v1"
 
 	"verifharness/hx"
-	"verifharness/mods/mt"
+	"verifharness/mods/all"
 )
 
 type replica struct {
@@ -35,11 +35,7 @@ func newReplica() *replica {
 
 // runners lists the module scenarios replicated by `det hist`; extended as modules are modelled.
 func runners(env *hx.Env) map[string]hx.Runner {
-	m := map[string]hx.Runner{"mt": mt.New(env)}
-	for k, v := range extraRunners(env) {
-		m[k] = v
-	}
-	return m
+	return all.Runners(env)
 }
 
 func kvDigest(env *hx.Env, ctx sdk.Context, store string) string {
